@@ -337,6 +337,14 @@ def rejection_case(item):
 # ---------------------------------------------------------------- C: single-edit corruptions (enumerated)
 
 ALPHABET = list('abxAB_ij01 +-/^()[]{}.,2') + ['é', '\t']
+def _function_level(ex):
+    '''a grammatical string whose function call is ill-formed (wrong number or shapes of arguments) is rejected by the applied function, or by the namespace's check of
+    the function result, with that function's own exception: not a violation of a documented syntax rule.  Everything raised by parser/namespace code itself is.'''
+    if 'when calling' in str(ex): return True
+    tb = ex.__traceback__; last = None
+    while tb is not None: last = tb; tb = tb.tb_next
+    fn = last.tb_frame.f_code.co_filename if last is not None else ''
+    return not (fn.endswith('expression_v1.py') or fn.endswith('expression_v2.py'))
 def corruption_case(item):
     version, s = item
     mod = e1 if version == 1 else e2
@@ -352,13 +360,14 @@ def corruption_case(item):
                     else: r = ns1.eval_ij(edited) if False else e1.parse(edited, {k: VARS[k] for k in VARS} if False else None, None) if False else _v1_any(ns1, edited)
                 except (mod.ExpressionSyntaxError, SyntaxError): pass      # v1 reports removed syntax (gradient with explicit geometry) with the builtin SyntaxError
                 except Exception as ex:
-                    bad.append(f'v{version} {edited!r}: {type(ex).__name__}: {ex}'[:160])
+                    if not _function_level(ex): bad.append(f'v{version} {edited!r}: {type(ex).__name__}: {ex}'[:160])
         if pos < len(s):
             n += 1; edited = s[:pos] + s[pos + 1:]
             try:
                 r = (edited @ ns2) if version == 2 else _v1_any(ns1, edited)
             except (mod.ExpressionSyntaxError, SyntaxError): pass
-            except Exception as ex: bad.append(f'v{version} {edited!r}: {type(ex).__name__}: {ex}'[:160])
+            except Exception as ex:
+                if not _function_level(ex): bad.append(f'v{version} {edited!r}: {type(ex).__name__}: {ex}'[:160])
     return dict(n=n, bad=bad)
 
 def _v1_any(ns1, s):
